@@ -9,6 +9,8 @@ package main
 
 import (
 	"bytes"
+	"context"
+	"io"
 	"fmt"
 	"os"
 	"path/filepath"
@@ -16,7 +18,12 @@ import (
 	"strings"
 	"unicode/utf8"
 
+	"fortio.org/log"
+	"grol.io/grol/eval"
+	"grol.io/grol/extensions"
 	"grol.io/grol/lexer"
+	"grol.io/grol/parser"
+	"grol.io/grol/repl"
 	"grol.io/grol/token"
 	"verifharness/common"
 	. "verifharness/common"
@@ -425,6 +432,133 @@ func oracle(c *Ctx, src []byte, lineMode bool, recs, post []rec, panicked string
 	}
 }
 
+// ---- interning under histories: other entry points of the program run between and during lexings.
+// After each of them equal (type, literal) must still be the identical *token.Token as before.
+var (
+	histState *eval.State
+	entryName = []string{"repl.EvalString", "repl.EvalStringWithOption", "eval.NewState", "repl.EvalOne", "parser.ParseProgram",
+		"extensions.Init", "repl.Grol.Parse+Run", "eval.EvalString"}
+)
+
+// entryPoint runs the k-th other entry point of the program (on texts unrelated to what is being lexed).
+func entryPoint(k int) (panicked string) {
+	defer func() {
+		if r := recover(); r != nil {
+			panicked = fmt.Sprint(r)
+		}
+	}()
+	switch k % len(entryName) {
+	case 0:
+		repl.EvalString("1+1")
+	case 1:
+		o := repl.EvalStringOptions()
+		o.Compact = true
+		repl.EvalStringWithOption(context.Background(), o, "zz=2; zz*3 // c")
+	case 2:
+		_ = eval.NewState()
+	case 3:
+		if histState == nil {
+			histState = eval.NewState()
+		}
+		repl.EvalOne(context.Background(), histState, "q7 = \"s\" + \"t\"", io.Discard, repl.Options{All: true})
+	case 4:
+		parser.New(lexer.New("func f(a){a+1.5} /* o */ f(2)")).ParseProgram()
+	case 5:
+		_ = extensions.Init(nil)
+	case 6:
+		g := repl.New()
+		if g.Parse([]byte("m9 = [1,2]; m9[0]")) == nil {
+			_ = g.Run(io.Discard)
+		}
+	case 7:
+		_, _ = eval.EvalString(eval.NewState(), "7*6", true)
+	}
+	return ""
+}
+
+func lexPtrs(src []byte, lineMode bool) []*token.Token {
+	var l *lexer.Lexer
+	if lineMode {
+		l = lexer.NewLineMode(string(src))
+	} else {
+		l = lexer.NewBytes(src)
+	}
+	var out []*token.Token
+	for i := 0; i < len(src)+2; i++ {
+		t := l.NextToken()
+		out = append(out, t)
+		if t == nil || isEndTok(t) {
+			break
+		}
+	}
+	return out
+}
+
+// c16History: (a) lex src, run entry point k, lex src again in both modes: token i must be the same object;
+// (b) one lexer: run entry point k between every two NextToken calls, every token must be the object first seen
+// for its (type, literal) in (a); (c) constant tokens: token.ByType unchanged.
+func c16History(c *Ctx, src []byte, k int) {
+	name := entryName[k%len(entryName)]
+	cs := fmt.Sprintf("HIST %d %s", k%len(entryName), Hx(src))
+	consts := map[token.Type]*token.Token{}
+	for t := token.ASSIGN; t < token.EOF; t++ {
+		consts[t] = token.ByType(t)
+	}
+	for _, lm := range []bool{false, true} {
+		first := lexPtrs(src, lm)
+		seen := map[tkey]*token.Token{}
+		for _, t := range first {
+			if t != nil {
+				seen[tkey{t.Type(), t.Literal()}] = t
+			}
+		}
+		if p := entryPoint(k); p != "" {
+			c.Fail("entry-point-panic:"+name, cs, p)
+			return
+		}
+		for _, lm2 := range []bool{lm, !lm} {
+			second := lexPtrs(src, lm2)
+			for i, t := range second {
+				if t == nil {
+					continue
+				}
+				if old, ok := seen[tkey{t.Type(), t.Literal()}]; ok && old != t {
+					c.Fail("intern-object-changed-after:"+name, cs, fmt.Sprintf("modes %v->%v token %d %s is no longer the object handed out before the call",
+						lm, lm2, i, t.DebugString()))
+					return
+				}
+			}
+		}
+		// one lexer, the entry point runs between its NextToken calls
+		var l *lexer.Lexer
+		if lm {
+			l = lexer.NewLineMode(string(src))
+		} else {
+			l = lexer.New(string(src))
+		}
+		for i := 0; i < len(src)+2; i++ {
+			t := l.NextToken()
+			if t == nil || isEndTok(t) {
+				break
+			}
+			if old, ok := seen[tkey{t.Type(), t.Literal()}]; ok && old != t {
+				c.Fail("intern-object-changed-during-lexing:"+name, cs, fmt.Sprintf("mode line=%v token %d %s differs from the object of the same (type, literal) handed out earlier",
+					lm, i, t.DebugString()))
+				return
+			}
+			entryPoint(k)
+		}
+	}
+	for t, p := range consts {
+		if token.ByType(t) != p {
+			c.Fail("constant-token-object-changed-after:"+name, cs, t.String())
+			return
+		}
+	}
+	c.Count("history=" + name)
+	c.Eval()
+}
+
 func c16One(c *Ctx, src []byte) {
 	var obs []string
 	for _, lm := range []bool{false, true} {
@@ -487,7 +621,10 @@ var corpus = []string{
 func runC16(c *Ctx) {
 	c.Rule = "exhaustive: every byte string of length <= 2 over all 256 byte values and of length <= L (3 quick / 4 thorough) over the " +
 		"29-symbol significant alphabet (incl. \\v \\f), both lexer modes; random longer inputs over a weighted alphabet; byte mutations of /repo/examples/*.gr. " +
+		"interning histories: 8 other entry points (repl.EvalString, EvalStringWithOption, eval.NewState, repl.EvalOne, parser.ParseProgram, " +
+		"extensions.Init, repl.Grol, eval.EvalString) run between two lexings and between the NextToken calls of one lexer, tokens compared by pointer. " +
 		"non-trivial = distinct input with a multi-byte token, a string, a comment or an ILLEGAL byte"
+	log.SetLogLevelQuiet(log.Error)
 	initWS()
 	for t := token.FUNC; t <= token.DEL; t++ {
 		keywords[strings.ToLower(t.String())] = t
@@ -505,12 +642,26 @@ func runC16(c *Ctx) {
 	}
 	if c.ReplayCase != "" {
 		f := strings.Fields(c.ReplayCase)
+		if len(f) == 3 && f[0] == "HIST" {
+			k := 0
+			fmt.Sscan(f[1], &k)
+			c16History(c, Unhx(f[2]), k)
+			return
+		}
 		if len(f) != 2 || f[0] != "LEX" {
 			fmt.Println("bad replay case")
 			return
 		}
 		c16One(c, Unhx(f[1]))
 		return
+	}
+	// histories first: every other entry point between / during lexings of inputs with every kind of value token
+	histInputs := []string{"abc = 12 + 3.5 if \"str\" == x1 // note\n/* blk */ abc", "k9 k9", "`raw` 0x1f .5 @ \x00 k9 // c\n\"a\\n\" func true",
+		"\"unterminated k9"}
+	for k := range entryName {
+		for _, h := range histInputs {
+			c16History(c, []byte(h), k)
+		}
 	}
 	for _, s := range corpus {
 		c16One(c, []byte(s))
@@ -580,6 +731,9 @@ func runC16(c *Ctx) {
 			}
 		}
 		c16One(c, b)
+		if i%25 == 0 { // histories on random inputs too; the run-wide (type, literal) -> object map sees everything after
+			c16History(c, b, c.R.Intn(len(entryName)))
+		}
 	}
 	// byte mutations of the shipped examples
 	repoDir := os.Getenv("VERIF_REPO")
